@@ -64,6 +64,9 @@ func (chain *Chain) validateNewRound(cache *CacheRound, references *common.Round
 	if !external.Hash.HasValue() || external.Hash != references.External {
 		panic(references.External)
 	}
+	if external.Hash == external.NodeId {
+		return nil, false, fmt.Errorf("external round %s is not final", references.External)
+	}
 	err = chain.updateExternal(final, external, timestamp, !finalized)
 	if err != nil {
 		return nil, false, err
@@ -85,6 +88,9 @@ func (chain *Chain) updateEmptyHeadRoundAndPersist(final *FinalRound, cache *Cac
 	}
 	if !external.Hash.HasValue() || external.Hash != references.External {
 		panic(references.External)
+	}
+	if external.Hash == external.NodeId {
+		return fmt.Errorf("round references external %s is not final", references.External)
 	}
 
 	err = chain.updateExternal(final, external, timestamp, strict)
